@@ -82,6 +82,11 @@ Judge(c, s, e) ==
                LET k == SixCounts(tV, tE, tF, e.n) IN
                << << Len(e.V) = k[1] /\ Len(e.F) = k[3] /\ AllTri(e.F), "documented_element_counts" >>,
                   << ~wasTri \/ e.n # 1 \/ SameBag(new, EdgeMidpoints(s.V, s.D) \o FaceCentres(s.V, s.F)), "new_vertices_at_edge_and_face_centres" >> >>
+          [] op = "split_ears" ->       \* every triangle with a vertex of degree 2 (an ear: two of its sides on the border) is fan-split, once
+               LET deg(v) == Cardinality({ k \in s.D.ES : v \in {k[1], k[2]} })
+                   K == { f \in 1..nfp : \E i \in 1..Len(s.F[f]) : deg(s.F[f][i]) = 2 }
+               IN << << ~wasTri \/ (Len(e.F) = nfp + 2 * Cardinality(K) /\ Len(e.V) = nvp + Cardinality(K)), "documented_element_counts" >>,
+                     << ~wasTri \/ SameBag(new, FaceCentres(s.V, SelectSeq(s.F, LAMBDA f : \E i \in 1..Len(f) : deg(f[i]) = 2))), "new_vertex_at_face_centre" >> >>
           [] OTHER -> << << FALSE, "unknown_operation" >> >>
   IN Check(specific \o common, op \o "/" \o cls, "", Adv(s, e))
 
